@@ -340,6 +340,21 @@ func c07body(c *xplore.Ctx) (text string, form string, fs []ev.Finding, skipped 
 			}
 		}
 	}
+	// no bindings at all: a parser that was never given a map (the package-level functions, a bare NewParser) must reject
+	// a placeholder like one whose map lacks the name
+	if len(params) == 0 {
+		var q0 *influxql.Query
+		var err0 error
+		var st0 influxql.Statement
+		var err0s error
+		if p, _ := try(func() {
+			q0, err0 = influxql.ParseQuery(text)
+			st0, err0s = influxql.NewParser(strings.NewReader(text)).ParseStatement()
+		}); p == nil && (err0 == nil || err0s == nil) {
+			return wit, spec.Form, []ev.Finding{{Sig: "unbound-placeholder-accepted-without-any-bindings:" + ev.SigSafe(pos), Witness: wit,
+				Detail: fmt.Sprintf("ParseQuery without SetParams: %v / %v; ParseStatement: %v / %v", q0, err0, st0, err0s), Case: cs, Rank: rank}}, false
+		}
+	}
 	if !bindable {
 		if err1 == nil {
 			return wit, spec.Form, []ev.Finding{{Sig: "unbindable-parameter-accepted:" + ev.SigSafe(pos), Witness: wit, Detail: "parse succeeded: " + q1.String(), Case: cs, Rank: rank}}, false
